@@ -329,7 +329,7 @@ def judge_pair(w0, w1, s0, s1, nsync, res):
             res.count('join_ahead_pairs')
             def after_restart(w_):
                 t_r = max((e_['t'] for e_ in w_.clog if e_['ev'] == 'fault'), default=0)
-                return len([1 for e_ in w_.clog if e_['ev'] == 'process' and e_['node'] == f'k{i}' and e_['ins'] and e_['t'] > t_r + 500_000_000])
+                return len([1 for e_ in w_.clog if e_['ev'] == 'process' and e_['node'] == f'k{i}' and e_['ins'] and e_['t'] > t_r])
             a0, a1 = after_restart(w0), after_restart(w1)
             res.count('join_ahead_sets_after_restart_without_listeners', a0)
             if (len(h0) >= 5 and len(h1) < 0.25 * len(h0)) or (a0 >= 5 and a1 < 0.25 * a0):
@@ -338,21 +338,37 @@ def judge_pair(w0, w1, s0, s1, nsync, res):
         if h0 != h1:
             j = next((j for j, (a, b) in enumerate(zip(h0, h1)) if a != b), min(len(h0), len(h1)))
             bad.append(('sync-stream-altered', f'k{i}: with ephemeral listeners attached input #{j} is {h1[j] if j < len(h1) else None}, without them {h0[j] if j < len(h0) else None} ({len(h1)} vs {len(h0)} inputs)'))
-    # (b) cumulative lateness D(k) = t_with(k) - t_without(k).  Every (re)join of an ephemeral consumer may shift the
-    # phase of the request/publish rhythm once (observed <= ~200 ms, never accumulating); waiting for an ephemeral
-    # consumer even once costs >= 2 s here (every slow ephemeral needs >= 2 s per frame, one is stalled for 1000 s).
+    # (b) "never delays the publisher": with the listeners attached no gap between two publications may exceed what the
+    # synchronized consumers and the publisher's own period explain (one full request/publish round trip of the slowest
+    # synchronized consumer, i.e. pipeline depth 1).  A publisher that waits for an ephemeral consumer even once shows a gap of
+    # >= 2 s here (every slow ephemeral needs >= 2 s per frame, one is stalled for 1000 s).  The run without listeners must
+    # satisfy the same bound, otherwise the pair is not judged.  (The cumulative lateness against the run without listeners
+    # is reported, not judged: how many requests circulate - one or two frames per round trip - is settled during start-up
+    # and may differ between the two runs without anybody waiting for anybody; section 11.)
     p0, p1 = pub_times(w0, 'src'), pub_times(w1, 'src')
-    joins = sum(1 for n in s1['nodes'] if n['id'].startswith('e')) + sum(1 for f in s1.get('faults') or () if f['kind'] == 'kill_restart')
-    allow = (400 * joins + 200) * 1_000_000
+    srcn = next(n for n in s1['nodes'] if n['id'] == 'src')
+    sync_nodes = [n for n in s1['nodes'] if n['id'].startswith('k')]
+    G = (2 * s1['link'].get('max_delay_ms', 0) + max([max(n['beh'].get('proc_ms') or [0]) for n in sync_nodes] or [0]) + max(srcn['beh'].get('proc_ms') or [0]) + 1000) * 1_000_000      # + 1 s: requests missed until the next 100 ms re-request, start-up of late joiners; still well below the 2 s a single wait for an ephemeral costs
+    t_settled = (max([n.get('start_ms', 0) for n in sync_nodes + [srcn]]) + 600) * 1_000_000
+    t_faults = [e_['t'] for e_ in w1.clog if e_['ev'] == 'fault' and e_.get('node') == 'src']
+
+    def max_gap(p_):
+        ts = sorted(t for t in p_.values() if t >= t_settled)
+        gaps = [(b_ - a_, a_) for a_, b_ in zip(ts, ts[1:]) if not any(a_ <= tf <= b_ + 6_000_000_000 and tf >= a_ - 1 for tf in t_faults)]
+        return max(gaps, default=(0, 0))
+    g0, g1 = max_gap(p0), max_gap(p1)
+    res.maxi('max_publication_gap_with_listeners_ms', int(g1[0] / 1e6))
+    if g0[0] <= G:
+        res.count('gap_rule_pairs_judged')
+        if g1[0] > G:
+            bad.append(('publisher-delayed', f'with ephemeral listeners attached src published nothing for {g1[0] / 1e6:.0f} ms (from {g1[1] / 1e6:.0f} ms on) although its synchronized consumers and its own period explain at most {G / 1e6:.0f} ms; without the listeners the longest gap was {g0[0] / 1e6:.0f} ms'))
+    else:
+        res.count('gap_rule_pairs_not_judged')
     worst = 0
     for k in sorted(p0):
         if k in p1 and k >= 1:
-            d = p1[k] - p0[k]
-            worst = max(worst, d)
+            worst = max(worst, p1[k] - p0[k])
             res.count('gaps_compared')
-            if d > allow:
-                bad.append(('publisher-delayed', f'publication of id {k} happened {d / 1e6:.0f} ms later with ephemeral listeners attached than without ({joins} ephemeral joins, allowance {allow / 1e6:.0f} ms)'))
-                break
     res.maxi('worst_lateness_ms', int(worst / 1e6))
     # (c)
     dbl = {e['cons'] for e in t1.edges if e['eph'] == 2}
